@@ -7,7 +7,8 @@ Definition sub_plain (s : submsg) : Prop := sm_reply s = RNever.
 Definition sub_pm_ok (s : submsg) : Prop :=
   sm_reply s = RNever \/ (sm_reply s = RSuccess /\ sm_id s = 1 /\ exists ask ss pid half, sm_msg s = MWasm PM (WPm (PmSwap ask None ss None pid)) [half]).
 Definition sub_fm_ok (s : submsg) : Prop :=
-  sm_reply s = RNever \/ (sm_reply s = RError /\ sm_id s = CLOSE_FARMS_ERR_REPLY_CODE /\ exists to amt, sm_msg s = MBankSend to amt).
+  sm_reply s = RNever \/
+  (sm_reply s = RError /\ sm_id s = CLOSE_FARMS_ERR_REPLY_CODE /\ exists to dn amt, sm_msg s = MBankSend to [(dn, amt)] /\ 0 <= amt).
 
 Lemma Forall_plain_app (a b : list submsg) : Forall sub_plain a -> Forall sub_plain b -> Forall sub_plain (a ++ b).
 Proof. intros. apply Forall_app; auto. Qed.
@@ -76,7 +77,8 @@ Proof.
   induction fs as [|f r IH]; intros s s' msgs acc Ha H; cbn [fold_left] in H.
   - inversion H; subst. exact Ha.
   - eapply IH; [|exact H]. cbn [fst snd]. destruct (0 <? _); [|exact Ha].
-    apply Forall_app. split; [exact Ha|]. constructor; [right; cbn; repeat split; eauto | constructor].
+    apply Forall_app. split; [exact Ha|]. constructor; [|constructor].
+    right. cbn. split; [reflexivity|]. split; [reflexivity|]. do 3 eexists. split; [reflexivity | unfold ssub; lia].
 Qed.
 
 Lemma fm_reply_spec w id s' msgs : fm_reply w id = Ok (s', msgs) -> s' = w_fm w /\ msgs = [] /\ id = CLOSE_FARMS_ERR_REPLY_CODE.
